@@ -25,7 +25,7 @@ C12 regress/C12-counter-nonzero-5445450760368162252.json 9fd999f
 C12 regress/C12-counter-nonzero-7603118085941297519.json c385cf7
 C12 regress/C12-counter-nonzero-1182017169601261124.json f49c7eb
 C11 regress/C11-proto-extra-reply-8697307517601547343.json 1791069
-C05 regress/C05-panic-6448108130810342654.json 6ab2777
+C05 regress/C05-panic-6448108130810342654.json 6ab2777 revert
 C11 regress/C11-proto-roundtrip-reply-3369049078810884284.json 5896adf
 C07 regress/C07-shutdown-during-gc-3563302134185838027.json 93602c9
 C15 regress/C15-second-route-reload-1201409606913257291.json 93361d6
@@ -37,13 +37,20 @@ C05 regress/C05-gc-vs-hint-loader-3713217905197791706.json 5cb5596
 C13 regress/C13-restart-older-own-value-3023141186284758218.json 2c2f6c6
 C05 regress/C05-bump-vs-gc-7293442130008682800.json 1bafda1
 "
-echo "$pairs" | while read prop file commit; do
+# A fourth column "revert" means: the witness was recorded on the current tree with only that fix
+# reverted (git show <fix> | git apply -R), because later fixes shift its schedule on the old parent.
+echo "$pairs" | while read prop file commit mode; do
   [ -z "$prop" ] && continue
   [ -f "$file" ] || { echo "$prop $file: MISSING"; continue; }
   bin/check $prop --replay $file > /tmp/regress-now.log 2>&1; now=$?
   wt=$(mktemp -d /tmp/regress-wt-XXXXXX); rmdir $wt
-  git -C /repo worktree add -q --detach $wt ${commit}^ || { echo "$prop $file: cannot create worktree"; continue; }
+  if [ "$mode" = revert ]; then
+    git -C /repo worktree add -q --detach $wt HEAD || { echo "$prop $file: cannot create worktree"; continue; }
+    (cd $wt && git show $commit | git apply -R) || { echo "$prop $file: cannot revert $commit"; git -C /repo worktree remove --force $wt; continue; }
+  else
+    git -C /repo worktree add -q --detach $wt ${commit}^ || { echo "$prop $file: cannot create worktree"; continue; }
+  fi
   VERIF_REPO=$wt bin/check $prop --replay $file > /tmp/regress-old.log 2>&1; old=$?
   git -C /repo worktree remove --force $wt
-  echo "$prop $(basename $file) fix=$commit: current tree exit=$now, parent of fix exit=$old"
+  echo "$prop $(basename $file) fix=$commit: current tree exit=$now, ${mode:-parent} of fix exit=$old"
 done
